@@ -137,3 +137,56 @@ Proof.
   { destruct (negb (Bool.eqb true (i_unique p))); reflexivity. }
   rewrite Z. cbn [N.eqb negb dd_support_rename_constraint sqlite_driver andb]. reflexivity.
 Qed.
+
+(** ** checks *)
+Definition cct := check_compare_to (check_compare None).
+
+(** no check matches another one's inspected form (by name, or by expression when one is unnamed) *)
+Fixpoint no_cross (l : list check) : bool :=
+  match l with
+  | [] => true
+  | k :: l' => forallb (fun k' => negb (cct (inspect_check k) k') && negb (cct (inspect_check k') k)) l' && no_cross l'
+  end.
+
+Definition checks_syntactic (cks : list check) : bool :=
+  forallb (fun k => check_compare None (inspect_check k) k && cct (inspect_check k) k && cct k (inspect_check k)) cks
+  && no_cross cks.
+
+Lemma no_cross_split pre k suf :
+  no_cross (pre ++ k :: suf) = true -> forall k', In k' pre -> cct (inspect_check k) k' = false.
+Proof.
+  induction pre as [|p pre IH]; simpl; intros H k' Hk'; [destruct Hk'|].
+  apply andb_true_iff in H. destruct H as [H1 H2]. destruct Hk' as [<-|Hk'].
+  - assert (X := proj1 (forallb_forall _ _) H1 k). cbv beta in X.
+    assert (Hin : In k (pre ++ k :: suf)) by (apply in_or_app; right; left; reflexivity).
+    specialize (X Hin). apply andb_true_iff in X. destruct X as [_ X]. apply negb_true_iff in X. exact X.
+  - apply IH; assumption.
+Qed.
+
+Lemma find_split {A} (f : A -> bool) pre x suf :
+  (forall y, In y pre -> f y = false) -> f x = true -> find f (pre ++ x :: suf) = Some x.
+Proof.
+  induction pre as [|p pre IH]; simpl; intros H1 H2; [rewrite H2; reflexivity|].
+  rewrite (H1 p (or_introl eq_refl)). apply IH; [intros y Hy; apply H1; right; exact Hy|exact H2].
+Qed.
+
+Lemma checks_round_trip cks :
+  checks_syntactic cks = true -> checks_diff (check_compare None) (map inspect_check cks) cks = [].
+Proof.
+  unfold checks_syntactic. intros H. apply andb_true_iff in H. destruct H as [H1 H2].
+  unfold checks_diff.
+  match goal with |- ?X ++ ?Y = [] => assert (EX : X = []); [|assert (EY : Y = []); [|rewrite EX, EY; reflexivity]] end.
+  - apply flat_map_nil_iff. intros c1 Hc1. apply in_map_iff in Hc1. destruct Hc1 as [k [E Hk]]. subst c1.
+    destruct (in_split k cks Hk) as [pre [suf ES]].
+    assert (K := proj1 (forallb_forall _ _) H1 k Hk). cbv beta in K.
+    apply andb_true_iff in K. destruct K as [K K3]. apply andb_true_iff in K. destruct K as [K1 K2].
+    assert (F : find (check_compare_to (check_compare None) (inspect_check k)) cks = Some k).
+    { rewrite ES. apply find_split; [|exact K2]. rewrite ES in H2. apply (no_cross_split pre k suf H2). }
+    rewrite F, K1. reflexivity.
+  - apply flat_map_nil_iff. intros k Hk.
+    assert (K := proj1 (forallb_forall _ _) H1 k Hk). cbv beta in K.
+    apply andb_true_iff in K. destruct K as [K K3].
+    assert (E : existsb (check_compare_to (check_compare None) k) (map inspect_check cks) = true).
+    { apply existsb_exists. exists (inspect_check k). split; [apply in_map; exact Hk|exact K3]. }
+    rewrite E. reflexivity.
+Qed.
